@@ -1,9 +1,9 @@
 (* C34 — ffi.include() shares declarations instead of copying them.
 
    Part A (in-line FFI, Python): src/cffi/cparser.py
-       Parser._declare        :575   conflict rule (same object and quals -> no-op; else FFIError unless override)
-       Parser._add_constants  :461   identical value -> no-op; different -> FFIError
-       Parser.include         :989   copies struct/union/enum/anonymous/typedef declarations (object
+       Parser._declare        :590   conflict rule (same object and quals -> no-op; else FFIError unless override)
+       Parser._add_constants  :474   identical value -> no-op; different -> FFIError
+       Parser.include         :1010   copies struct/union/enum/anonymous/typedef declarations (object
                                      identity preserved) except 'anonymous $enum_$...', then the integer constants
      src/cffi/api.py  FFI.include :510   ValueError on self-include; appends to _included_ffis on success.
    Declaration names are the real strings ("typedef foo_t", "struct foo_s", ...), objects are
@@ -12,9 +12,9 @@
    and what has already been copied when the exception leaves).
 
    Part B (out-of-line modules, C): lookups that delegate to the included modules
-       _fetch_external_struct_or_union   src/c/ffi_obj.c:1183
+       _fetch_external_struct_or_union   src/c/ffi_obj.c:1185
        ffi_fetch_int_constant            src/c/ffi_obj.c:96
-       lib_build_and_cache_attr          src/c/lib_obj.c:207  (delegation part)
+       lib_build_and_cache_attr          src/c/lib_obj.c:208  (delegation part)
    all three are the same depth-first search with the recursion cap 100; [dfs] below keeps the
    loop / recursion structure of the C code. *)
 From Coq Require Import NArith ZArith List Bool Arith.
@@ -316,6 +316,171 @@ Definition lib_getattr (w : world) (m : nat) (nm : str) : fres attr :=
     end
   end.
 
+(* ------------------------------------------------------------------ Part B': the searches as READ FROM Gen.v
+   The three rows gen_row_struct / gen_row_const / gen_row_lib are regenerated on every run from
+   src/c/ffi_obj.c (_fetch_external_struct_or_union, ffi_fetch_int_constant) and src/c/lib_obj.c
+   (lib_build_and_cache_attr) by tools/props/c34_regen.py.  [dfsG] takes from its row: the guards in front of
+   the loop, in source order (NULL tuple, `recursion > cap`, any other early `return NULL`), the increment of
+   the recursion argument, which tuple the recursive call works on; [struct_ownG] the statement executed when
+   the item has no entry (`continue` / `break`, `return NULL`) and the two flag masks of
+   (s1->flags & lhs) == (s->flags & rhs).  The correspondence check evaluates THESE functions (run_query);
+   C34_regenerated_searches_are_the_model proves that on the current source they equal the searches above. *)
+
+Definition is_nil {X : Type} (l : list X) : bool := match l with [] => true | _ => false end.
+
+Section DFSG.
+  Context {A : Type}.
+  Variable r : search_row.
+  Variable own : nat -> module -> option (fres A).
+  Variable descend : nat -> module -> bool.
+
+  Fixpoint run_guards (gs : list guard) (included : list nat) (recursion : nat) : option (fres A) :=
+    match gs with
+    | [] => None
+    | GNullTuple :: t => if is_nil included then Some NotFound else run_guards t included recursion
+    | GCap n :: t => if n <? recursion then Some (Error RuntimeError) else run_guards t included recursion
+    | GExit _ :: _ => Some NotFound    (* an early `return NULL` the model knows nothing about: assumed to fire *)
+    end.
+
+  Fixpoint dfs_loopG (rec_call : list nat -> fres A) (w : world) (cur l : list nat) : fres A :=
+    match l with
+    | [] => NotFound
+    | i :: rest =>
+      match nth_error w i with
+      | None => dfs_loopG rec_call w cur rest
+      | Some m1 =>
+        match own i m1 with
+        | Some x => x
+        | None =>
+          if descend i m1 then
+            match rec_call (match sr_down r with DownItemIncludes => includes m1 | DownSameTuple => cur end) with
+            | NotFound => dfs_loopG rec_call w cur rest
+            | x => x
+            end
+          else dfs_loopG rec_call w cur rest
+        end
+      end
+    end.
+
+  Fixpoint dfsG (fuel : nat) (w : world) (included : list nat) (recursion : nat) : fres A :=
+    match fuel with
+    | O => Error OutOfFuel
+    | S f =>
+      match run_guards (sr_guards r) included recursion with
+      | Some x => x
+      | None => dfs_loopG (fun inc => dfsG f w inc (recursion + sr_inc r)) w included included
+      end
+    end.
+End DFSG.
+
+Definition sflag_eqb (a b : sflag) : bool :=
+  match a, b with FExternal, FExternal | FUnion, FUnion => true | _, _ => false end.
+Definition has_flag (f : sflag) (l : list sflag) : bool := existsb (sflag_eqb f) l.
+
+(* (s1->flags & lhs) == (s->flags & rhs)  on the two bits EXTERNAL and UNION; s is the requesting entry *)
+Definition flag_test (r : search_row) (s1 : sentry) (sext sun : bool) : bool :=
+  Bool.eqb (has_flag FExternal (sr_lhs_mask r) && s_external s1) (has_flag FExternal (sr_rhs_mask r) && sext)
+  && Bool.eqb (has_flag FUnion (sr_lhs_mask r) && s_union s1) (has_flag FUnion (sr_rhs_mask r) && sun).
+
+(* the requesting entry s is external: realize_c_type.c calls _fetch_external_struct_or_union in the
+   `s->flags & _CFFI_F_EXTERNAL` branch only *)
+Definition struct_ownG (r : search_row) (nm : str) (un : bool) (i : nat) (m1 : module) : option (fres (nat * nat)) :=
+  match find_struct nm (structs m1) 0 with
+  | Some (sindex, s1) => if flag_test r s1 true un then Some (Found (i, sindex)) else None
+  | None => match sr_miss r with MissContinue => None | MissStop => Some NotFound end
+  end.
+
+Definition fetch_externalG (w : world) (m : nat) (nm : str) (un : bool) : fres (nat * nat) :=
+  match nth_error w m with
+  | Some md => dfsG gen_row_struct (struct_ownG gen_row_struct nm un) (struct_descend nm) cap_fuel w (includes md) 0
+  | None => NotFound
+  end.
+
+Definition resolve_structG (w : world) (m : nat) (nm : str) (un : bool) : fres (nat * nat) :=
+  match nth_error w m with
+  | None => NotFound
+  | Some md =>
+    match find_struct nm (structs md) 0 with
+    | None => NotFound
+    | Some (sindex, s) =>
+        if negb (Bool.eqb (s_union s) un) then NotFound
+        else if negb (s_external s) then Found (m, sindex)
+        else match fetch_externalG w m nm un with
+             | NotFound => Error FFIError
+             | x => x
+             end
+    end
+  end.
+
+(* an `if (cond) return NULL;` in front of the local lookup / of the delegation block that the model does not
+   know: assumed to fire (the function then answers "not found" for this object and does not delegate) *)
+Definition pre_fires (r : search_row) : bool := negb (is_nil (sr_pre_exits r)).
+
+Definition const_ownG (r : search_row) (nm : str) (i : nat) (m1 : module) : option (fres Z) :=
+  if pre_fires r then None else const_own nm i m1.
+
+Definition fetch_int_constant_fromG (w : world) (m : nat) (nm : str) (recursion : nat) : fres Z :=
+  let r := gen_row_const in
+  match nth_error w m with
+  | None => NotFound
+  | Some md =>
+    if pre_fires r then NotFound else
+    match const_own nm m md with
+    | Some x => x
+    | None => dfsG r (const_ownG r nm) (fun _ _ => negb (pre_fires r)) cap_fuel w (includes md) recursion
+    end
+  end.
+
+Definition integer_constG (w : world) (m : nat) (nm : str) : fres Z :=
+  match fetch_int_constant_fromG w m nm 0 with
+  | NotFound => Error AttributeError
+  | x => x
+  end.
+
+Definition lib_ownG (r : search_row) (nm : str) (i : nat) (m1 : module) : option (fres attr) :=
+  if pre_fires r then None else lib_own nm i m1.
+
+Definition lib_getattrG (w : world) (m : nat) (nm : str) : fres attr :=
+  let r := gen_row_lib in
+  match nth_error w m with
+  | None => NotFound
+  | Some md =>
+    if pre_fires r then NotFound else
+    match lookup nm (globals md) with
+    | Some (GInt v) => Found (AInt v)
+    | Some GOther => Found (AObj m)
+    | None =>
+        match dfsG r (lib_ownG r nm) (fun _ _ => negb (pre_fires r)) cap_fuel w (includes md) 0 with
+        | NotFound => Error AttributeError
+        | x => x
+        end
+    end
+  end.
+
+(* ------------------------------------------------------------------ bridge A -> B: the module the recompiler
+   emits for an in-line FFI (src/cffi/recompiler.py Recompiler._struct_ctx): one struct_unions entry per
+   "struct x" / "union x" declaration; the entry is _CFFI_F_EXTERNAL exactly when the type object is in
+   _included_declarations (gen_external_iff_included, regenerated); included_ffis as recorded by FFI.include *)
+Definition kw_struct : str := [115;116;114;117;99;116;32]%N.   (* "struct " *)
+Definition kw_union : str := [117;110;105;111;110;32]%N.        (* "union " *)
+
+Definition struct_name (n : str) : option (str * bool) :=
+  if startswith kw_struct n then Some (skipn 7 n, false)
+  else if startswith kw_union n then Some (skipn 6 n, true)
+  else None.
+
+Definition external_flag (p : parser) (o : N) : bool :=
+  if gen_external_iff_included then existsb (N.eqb o) (incl_decls p) else false.
+
+Definition struct_entries (p : parser) : list sentry :=
+  flat_map (fun d => match struct_name (fst d) with
+                     | Some (nm, un) => [mkS nm un (external_flag p (fst (snd d)))]
+                     | None => []
+                     end) (decls p).
+
+Definition module_of (f : ffi) : module :=
+  mkModule (struct_entries (fparser f)) [] (included_ffis f) true.
+
 (* ------------------------------------------------------------------ specification side *)
 
 (* modules visited by an unpruned depth-first traversal, in order (with repetitions) *)
@@ -399,19 +564,19 @@ Inductive answer :=
 Definition run_query (w : world) (q : query) : answer :=
   match q with
   | QStruct m nm un =>
-      match resolve_struct w m nm un with
+      match resolve_structG w m nm un with
       | Found (j, _) => AOwner j
       | NotFound => AErr FFIError
       | Error e => AErr e
       end
   | QConst m nm =>
-      match integer_const w m nm with
+      match integer_constG w m nm with
       | Found v => AVal v
       | NotFound => AErr AttributeError
       | Error e => AErr e
       end
   | QLib m nm =>
-      match lib_getattr w m nm with
+      match lib_getattrG w m nm with
       | Found (AInt v) => AVal v
       | Found (AObj j) => AOwner j
       | NotFound => AErr AttributeError
